@@ -17,6 +17,8 @@ pub enum Item {
     /// a raw chunk written through io::Write
     Chunk(Vec<u8>),
     Flush,
+    /// reopen_output without any external action (and without a flush before it): changes nothing
+    Reopen,
 }
 
 #[derive(Clone, Debug, Serialize, Deserialize)]
@@ -84,6 +86,9 @@ fn run_mode(case: &Case, mode: Mode, chunks: bool, sc: &Scratch, tag: &str) -> R
                         std::thread::sleep(std::time::Duration::from_millis(1));
                     }
                 }
+                Item::Reopen => {
+                    let _ = w.reopen_outputfile();
+                }
                 Item::Rec(_) => {}
             }
         }
@@ -110,6 +115,9 @@ fn run_mode(case: &Case, mode: Mode, chunks: bool, sc: &Scratch, tag: &str) -> R
                     if mode.is_async() {
                         std::thread::sleep(std::time::Duration::from_millis(1));
                     }
+                }
+                Item::Reopen => {
+                    let _ = sess.reopen();
                 }
                 Item::Chunk(_) => {}
             }
@@ -186,9 +194,9 @@ impl Property for P {
                 let cap = sm.iter().filter_map(|m| m.buffer_cap()).filter(|c| *c < 4096).max();
                 let le = cfg.line_ending().len();
                 let item = if use_chunks {
-                    prop_oneof![9 => chunk_strat(n).prop_map(Item::Chunk), 1 => Just(Item::Flush)].boxed()
+                    prop_oneof![18 => chunk_strat(n).prop_map(Item::Chunk), 2 => Just(Item::Flush), 1 => Just(Item::Reopen)].boxed()
                 } else {
-                    prop_oneof![9 => crate::hist::len_strat(n, cap, le).prop_map(Item::Rec), 1 => Just(Item::Flush)].boxed()
+                    prop_oneof![18 => crate::hist::len_strat(n, cap, le).prop_map(Item::Rec), 2 => Just(Item::Flush), 1 => Just(Item::Reopen)].boxed()
                 };
                 (Just(cfg), Just(sm), prop::collection::vec(item, 0..40))
             })
@@ -273,7 +281,7 @@ impl Property for P {
         let big = case.items.iter().any(|i| match i {
             Item::Chunk(c) => c.len() > min_cap,
             Item::Rec(l) => *l + 1 > min_cap,
-            Item::Flush => false,
+            Item::Flush | Item::Reopen => false,
         });
         if big {
             out.class("item-larger-than-buffer");
